@@ -448,7 +448,13 @@ pub fn hist<F: BoolExt>(args: &Args) {
                     live[rng.below(live.len())]
                 }
             };
-            let c = if stress && live.len() >= 5 { 12 + rng.below(66) } else { rng.below(100) };
+            let c = if stress && live.len() >= 5 {
+                // mostly operations; now and then a collection, a new
+                // variable or a reordering (cache invalidation points)
+                if rng.chance(1, 12) { 90 + rng.below(8) } else { 12 + rng.below(66) }
+            } else {
+                rng.below(100)
+            };
             if stress && live.len() > 9 {
                 // keep the pool small: drop the newest results
                 for &x in live.iter().skip(5) {
